@@ -148,6 +148,31 @@ func mutateEML(r *Rng, eml []byte) []byte {
 			if len(cand) == 0 {
 				break
 			}
+			// lines that end in base64 padding are where a decoder's edge cases live: half of the time one of those
+			var padded []int
+			for _, i := range cand {
+				if l := lines[i]; strings.HasSuffix(l, "=") && !strings.Contains(l, " ") && !strings.Contains(strings.TrimRight(l, "="), "=") {
+					padded = append(padded, i)
+				}
+			}
+			if len(padded) > 0 && r.Chance(50) {
+				i := padded[r.Intn(len(padded))]
+				l := lines[i]
+				switch r.Intn(5) {
+				case 0:
+					l = l[:len(l)-1] // "==" -> "=", "=" -> ""
+				case 1:
+					l = strings.TrimRight(l, "=")
+				case 2:
+					l += "="
+				case 3:
+					l = l[:len(l)-1] + "A"
+				default:
+					l = strings.TrimRight(l, "=") + "=\r\n" // padding, then an empty line inside the part
+				}
+				lines[i] = l
+				break
+			}
 			// the last line of a part is where padding lives
 			i := cand[r.Intn(len(cand))]
 			if r.Chance(60) {
